@@ -114,3 +114,22 @@ pub fn good_flag_idiom(m: &Mode, w: &mut Wal) -> Result<(), String> {
     if should { w.append(1)?; }
     Ok(())
 }
+
+// bounds-check discharge: a lookahead index needs its own test
+pub fn bad_index_lookahead(bytes: &[u8]) -> usize {
+    let mut i = 0; let mut n = 0;
+    while i < bytes.len() { if bytes[i] == b'/' && bytes[i + 1] == b'*' { n += 1; i += 2; } else { i += 1; } }
+    n
+}
+pub fn good_index_guarded(bytes: &[u8]) -> usize {
+    let mut i = 0; let mut n = 0;
+    while i < bytes.len() { if bytes[i] == b'/' && i + 1 < bytes.len() && bytes[i + 1] == b'*' { n += 1; i += 2; } else { i += 1; } }
+    n
+}
+
+// range-index discharge: a decoder must test the length before slicing
+pub fn bad_decode_flags(p: &[u8]) -> Result<(u8, &[u8]), String> { let data = &p[1..]; Ok((p[0], data)) }
+pub fn good_decode_flags(p: &[u8]) -> Result<(u8, &[u8]), String> {
+    if p.is_empty() { return Err("empty".into()); }
+    let flags = p[0]; let data = &p[1..]; Ok((flags, data))
+}
